@@ -56,7 +56,7 @@ static const CO_OBJ_TYPE UtUser  = { UtSize, 0, UtRead, UtUserWrite, 0 };
 
 enum { K_BASIC, K_DOMAIN, K_STRING, K_RANGE, K_USER };
 typedef struct { uint16_t idx; uint8_t sub, rd, wr, kind; uint32_t size; uint8_t *mem; uint8_t direct, nid; } ODesc;
-enum { O_U8, O_U16, O_U32, O_U32D, O_RO, O_WO, O_NID, O_DOM3, O_DOMA, O_DOMB, O_STR3, O_STR5, O_STR12, O_STRV, O_SUB0, O_SUB1, O_RANGE, O_USER, O_N };
+enum { O_U8, O_U16, O_U32, O_U32D, O_RO, O_WO, O_NID, O_U16D, O_U8D, O_U32Z, O_DOM3, O_DOMA, O_DOMB, O_STR3, O_STR5, O_STR12, O_STRV, O_SUB0, O_SUB1, O_RANGE, O_USER, O_N };
 static ODesc OBJ[O_N];
 static uint8_t MV[O_N][SDO_DS2 + 1];       /* the model's copy of every object's SDO-visible value */
 static uint8_t MV0[O_N][SDO_DS2 + 1];      /* ... and the initial values */
@@ -109,6 +109,9 @@ static void sdo_world_build(uint32_t nmt_operational)
     od_add(&b, CO_KEY(0x2004, 0, CO_OBJ_____R_), CO_TUNSIGNED32, (CO_DATA)&V32ro);
     od_add(&b, CO_KEY(0x2005, 0, CO_OBJ______W), CO_TUNSIGNED32, (CO_DATA)&V32wo);
     od_add(&b, CO_KEY(0x2006, 0, CO_OBJ__N__RW), CO_TUNSIGNED32, (CO_DATA)&V32nid);
+    od_add(&b, CO_KEY(0x2007, 0, CO_OBJ_D___RW), CO_TUNSIGNED16, (CO_DATA)0);           /* direct value whose content is 0: Data == 0 is a value here, not "no data" */
+    od_add(&b, CO_KEY(0x2008, 0, CO_OBJ_D___RW), CO_TUNSIGNED8,  (CO_DATA)0);
+    od_add(&b, CO_KEY(0x2009, 0, CO_OBJ_D___RW), CO_TUNSIGNED32, (CO_DATA)0);
     od_add(&b, CO_KEY(0x2010, 0, CO_OBJ_____RW), CO_TDOMAIN, (CO_DATA)&DomO3);
     od_add(&b, CO_KEY(0x2011, 0, CO_OBJ_____RW), CO_TDOMAIN, (CO_DATA)&DomOA);
     od_add(&b, CO_KEY(0x2012, 0, CO_OBJ_____RW), CO_TDOMAIN, (CO_DATA)&DomOB);
@@ -127,6 +130,9 @@ static void sdo_world_build(uint32_t nmt_operational)
     sdo_def(O_RO,   0x2004, 0, 1, 0, K_BASIC, 4, &V32ro, 0, 0);
     sdo_def(O_WO,   0x2005, 0, 0, 1, K_BASIC, 4, &V32wo, 0, 0);
     sdo_def(O_NID,  0x2006, 0, 1, 1, K_BASIC, 4, &V32nid, 0, 1);
+    sdo_def(O_U16D, 0x2007, 0, 1, 1, K_BASIC, 2, 0, 1, 0);
+    sdo_def(O_U8D,  0x2008, 0, 1, 1, K_BASIC, 1, 0, 1, 0);
+    sdo_def(O_U32Z, 0x2009, 0, 1, 1, K_BASIC, 4, 0, 1, 0);
     sdo_def(O_DOM3, 0x2010, 0, 1, 1, K_DOMAIN, 3, Dom3, 0, 0);
     sdo_def(O_DOMA, 0x2011, 0, 1, 1, K_DOMAIN, SDO_DS1, DomA, 0, 0);
     sdo_def(O_DOMB, 0x2012, 0, 1, 1, K_DOMAIN, SDO_DS2, DomB, 0, 0);
